@@ -1,4 +1,5 @@
 #!/bin/bash
+# (c1ac038.diff also reverts the later 0334a10, which touches the same lines.)
 # Re-introduces each repaired defect (reverse patch of its fix commit) and shows that the property's
 # check reports it again. usage: selftest/reverts/run_all.sh [commit...]
 cd /verif
